@@ -50,6 +50,8 @@ def oracle(program, blocksize):
     shim.install('UTC')
     blocksize = blocksize or 8192
     failures = []
+    # a moving clock in half of the cases (views are compared, not bytes): whatever the library stamps twice must still agree
+    shim.set_tick(len(program['ops']) % 2 == 1)
     run = Run(program)
     run.stats = {'c01_domain_problems': 0, 'generations': 0, 'edits_after_reopen': 0}
     state = {'after': 0}
